@@ -448,7 +448,7 @@ def cases(rng, n, subprocess_safe):
             if order is None:
                 order = T.ORDER[ver] if am else T.MANDATORY[ver]
             tgt = {q: rng.choice(T.VALUES[ver][q]) for q in T.ORDER[ver]}
-            answers = DLG.script_for(order, tgt, rng, noise=0.15, case=rng.choice(("asis", "lower", "upper", "mixed")))
+            answers = DLG.script_for(order, tgt, rng, noise=0.15, case=rng.choice(("asis", "lower", "upper", "mixed")), ver=ver)
             rr = rng.random()
             if rr < 0.35:
                 answers = answers[:rng.randrange(len(answers) + 1)]
